@@ -80,12 +80,19 @@ fn cnt16(n: usize, what: &str) -> Result<u16, String> { u16::try_from(n).map_err
 
 struct E { pool: PoolB, rng: Rng, canonical: bool }
 
-pub fn emit(c: &Class, layout: &Layout) -> Result<Vec<u8>, String> {
+pub fn emit(c: &Class, layout: &Layout) -> Result<Vec<u8>, String> { emit_front(c, layout, &[]) }
+
+/// Like [`emit`], but the constants in `front` (with the entries they depend on) are interned before anything else.
+/// With a canonical layout they therefore get the lowest pool indices (added for C02's pool-pressure scenarios:
+/// the source uses a 2-byte `ldc` where a writer that numbers constants by first use needs `ldc_w`).
+/// `front == []` is exactly `emit`. Constants in `front` that the class never uses become unused pool entries.
+pub fn emit_front(c: &Class, layout: &Layout, front: &[Const]) -> Result<Vec<u8>, String> {
     let mk = |assigned: Option<Vec<Vec<u16>>>, ids: HashMap<K, Id>, entries: Vec<K>, bsm: Vec<(Id, Vec<Id>)>| E {
         pool: PoolB { ids, entries, bsm, assigned, rng: Rng::new(layout.seed ^ 0x51ab) }, rng: Rng::new(layout.seed ^ 0xe317), canonical: layout.canonical,
     };
     // dry run: collect constants
     let mut e = mk(None, HashMap::new(), vec![], vec![]);
+    for k in front { e.pool.constant(k); }
     let _ = e.class_body(c)?;
     let n_ids = e.pool.entries.len();
     // assign indices
